@@ -168,7 +168,7 @@ type checker struct {
 	pool  chan *kproc
 	all   []*kproc
 
-	evals, kcalls, programs, dupProgs, byRule, byFb, mustDec, markDec, dnsCP, dnsMust, lanDec, wanDec, tcpDec, udpDec, v4Dec, v6Dec, domKnown, skippedUnspec, kernNeg, refCmp *atomic.Int64
+	evals, kcalls, distinct, programs, dupProgs, byRule, byFb, mustDec, markDec, dnsCP, dnsMust, lanDec, wanDec, tcpDec, udpDec, v4Dec, v6Dec, domKnown, skippedUnspec, kernNeg, refCmp *atomic.Int64
 	mism                                                                                                                                                          atomic.Int64
 
 	ringMu sync.Mutex
@@ -181,6 +181,17 @@ type checker struct {
 	perVar    [nVariants]int64
 	ringWrap  int64 // programs whose LPM allocation really wrapped past slot 1023
 	ringMax   uint32
+}
+
+// progSig is the stable rendering of a program inside violation signatures: the rules as written, or for the
+// hand-built long programs their label, size and a hash of the text.
+func progSig(p *vroute.Program) string {
+	if len(p.Rules) <= 8 {
+		return p.OneLine()
+	}
+	h := fnv.New64a()
+	h.Write([]byte(p.OneLine()))
+	return fmt.Sprintf("<%s: %d rules, fnv64a=%016x>", p.Label, len(p.Rules), h.Sum64())
 }
 
 func broken(f string, a ...any) {
@@ -421,7 +432,7 @@ type group struct {
 // control plane writes followed by the route() batch.
 func (c *checker) run(k *kproc, cp *compiled, pkts []vroute.Packet, loneKey string, sample bool) {
 	loadViol := func(why string) {
-		c.violate("leg=load prog="+cp.prog.OneLine()+" variant="+cp.va.String()+" "+why, map[string]any{"config": cp.text, "variant": cp.va})
+		c.violate("leg=load prog="+progSig(cp.prog)+" variant="+cp.va.String()+" "+why, map[string]any{"config": cp.text, "variant": cp.va})
 	}
 	var s session
 	s.reset()
@@ -497,7 +508,7 @@ func (c *checker) run(k *kproc, cp *compiled, pkts []vroute.Packet, loneKey stri
 			}
 			ents, err := control.VerifC02DomainTable(addrs, cp.v.DomainBitmap(g.domain))
 			if err != nil {
-				c.violate("leg=domain-table prog="+cp.prog.OneLine()+" domain="+g.domain+" err="+err.Error(), map[string]any{"config": cp.text})
+				c.violate("leg=domain-table prog="+progSig(cp.prog)+" domain="+g.domain+" err="+err.Error(), map[string]any{"config": cp.text})
 				return
 			}
 			g.ents = ents
@@ -560,7 +571,7 @@ func (c *checker) run(k *kproc, cp *compiled, pkts []vroute.Packet, loneKey stri
 	}
 	rs, err := k.exec(&s)
 	if err != nil {
-		broken("engine K: %v\nprogram: %s", err, cp.prog.OneLine())
+		broken("engine K: %v\nprogram: %s", err, progSig(cp.prog))
 	}
 	// --- did the kernel maps accept what the control plane writes?
 	chk := func(i int, what string) bool {
@@ -594,7 +605,8 @@ func (c *checker) run(k *kproc, cp *compiled, pkts []vroute.Packet, loneKey stri
 		}
 	}
 	local := map[int64]int64{}
-	var nRule, nFb, nMust, nMark, nDnsCP, nDnsMust, nLan, nWan, nTCP, nUDP, n4, n6, nDom, nNeg, nEval, nCalls int64
+	var nRule, nFb, nMust, nMark, nDnsCP, nDnsMust, nLan, nWan, nTCP, nUDP, n4, n6, nDom, nNeg, nEval, nCalls, nDistinct int64
+	sampleKern := ""
 	posRule := make([]int64, len(cp.prog.Rules))
 	type refDec struct {
 		t   triple
@@ -614,6 +626,7 @@ func (c *checker) run(k *kproc, cp *compiled, pkts []vroute.Packet, loneKey stri
 		}
 		res := rs[g.respRt].res
 		nCalls += int64(len(res))
+		used := make([]bool, len(res))
 		for _, kc := range g.cases {
 			p := &pkts[kc.pkt]
 			gr := g.gor[kc.pkt]
@@ -629,8 +642,15 @@ func (c *checker) run(k *kproc, cp *compiled, pkts []vroute.Packet, loneKey stri
 			refT, hit := rd.t, rd.hit
 			if hit.Rule >= 0 || hit.MustRules > 0 {
 				nRule++
+				if !used[kc.arg] { // distinct kernel input of this program whose decision is not the plain fallback
+					nDistinct++
+				}
 			} else {
 				nFb++
+			}
+			used[kc.arg] = true
+			if kc.pkt == len(pkts)/2 {
+				sampleKern = kernString(got)
 			}
 			if hit.Rule >= 0 {
 				posRule[hit.Rule]++
@@ -690,7 +710,7 @@ func (c *checker) run(k *kproc, cp *compiled, pkts []vroute.Packet, loneKey stri
 				for i, b := range cp.kern {
 					hexRules[i] = fmt.Sprintf("%x", b)
 				}
-				c.violate(fmt.Sprintf("leg=%s prog=%s variant=%s pkt=%s flavour=%s kernel=[%s] userspace=[%s] expected=[%s] reference=[%s]", leg, cp.prog.OneLine(), cp.va, p.Key(), fl, kernString(got), us, exp, refT),
+				c.violate(fmt.Sprintf("leg=%s prog=%s variant=%s pkt=%s flavour=%s kernel=[%s] userspace=[%s] expected=[%s] reference=[%s]", leg, progSig(cp.prog), cp.va, p.Key(), fl, kernString(got), us, exp, refT),
 					caseDetail{Program: cp.prog, Config: cp.text, Variant: cp.va, Packet: toJSON(p), Wan: kc.wan, Kernel: kernString(got), Userspace: us, Expected: exp.String(), Reference: refT.String(), Rules: hexRules, Alloc: cp.alloc})
 			}
 		}
@@ -698,6 +718,7 @@ func (c *checker) run(k *kproc, cp *compiled, pkts []vroute.Packet, loneKey stri
 	c.evals.Add(nEval)
 	c.kcalls.Add(nCalls)
 	c.byRule.Add(nRule)
+	c.distinct.Add(nDistinct)
 	c.byFb.Add(nFb)
 	c.mustDec.Add(nMust)
 	c.markDec.Add(nMark)
@@ -740,7 +761,7 @@ func (c *checker) run(k *kproc, cp *compiled, pkts []vroute.Packet, loneKey stri
 		p := &pkts[len(pkts)/2]
 		d, hit := cp.ref.Decide(p)
 		c.r.Sample(map[string]any{"routing": cp.prog.RoutingBody(), "variant": cp.va.String(), "lpm_alloc_start": cp.alloc, "packets": len(pkts), "kernel_decisions": nEval,
-			"one_packet": p.Key(), "its_decision": d.String(), "by_rule": hit.Rule})
+			"one_packet": p.Key(), "reference_decision": d.String(), "by_rule": hit.Rule, "kernel_route_result_wan_flavour": sampleKern})
 	}
 }
 
@@ -748,18 +769,27 @@ func (c *checker) one(base *vroute.Program, va variant, opts vroute.PacketOpts, 
 	var cp *compiled
 	var err error
 	if p, msg := vlib.Try(func() { cp, err = c.compile(base, va) }); p {
-		c.violate("leg=build panic at "+vlib.PanicSite(msg)+" prog="+base.OneLine()+" variant="+va.String(), map[string]any{"program": base, "panic": msg})
+		c.violate("leg=build panic at "+vlib.PanicSite(msg)+" prog="+progSig(base)+" variant="+va.String(), map[string]any{"program": base, "panic": msg})
 		return
 	}
 	if err != nil {
-		c.violate("leg=build error prog="+cp.prog.OneLine()+" variant="+va.String()+" err="+err.Error(), map[string]any{"config": cp.text, "program": cp.prog})
+		c.violate("leg=build error prog="+progSig(cp.prog)+" variant="+va.String()+" err="+err.Error(), map[string]any{"config": cp.text, "program": cp.prog})
 		return
 	}
+	// the EFFECTIVE variant: the ring state is immaterial without LPM sets, the id table without g1/g2
+	effRing, effIds := va.Ring, va.Ids
+	if cp.v.LpmCount() == 0 {
+		effRing = 0
+	}
+	if body := cp.prog.RoutingBody(); !strings.Contains(body, "g1") && !strings.Contains(body, "g2") {
+		effIds = 0
+	}
 	if dedupe {
-		// two base programs can coincide once marks are rewritten (g1 / g1(mark:…)): run each (text, ring, ids) once
+		// run each effective (program, variant) once; two base programs can also coincide once marks are
+		// rewritten (g1 / g1(mark:…))
 		h := fnv.New64a()
 		h.Write([]byte(cp.text))
-		fmt.Fprintf(h, "|%d|%d", va.Ring, va.Ids)
+		fmt.Fprintf(h, "|%d|%d", effRing, effIds)
 		key := h.Sum64()
 		c.mu.Lock()
 		_, dup := c.seen[key]
@@ -772,7 +802,7 @@ func (c *checker) one(base *vroute.Program, va variant, opts vroute.PacketOpts, 
 	}
 	c.programs.Add(1)
 	c.mu.Lock()
-	c.perVar[va.Ring+3*va.Ids+15*va.Mark]++
+	c.perVar[effRing+3*effIds+15*va.Mark]++
 	if cp.wrapped {
 		c.ringWrap++
 	}
@@ -799,6 +829,7 @@ type space struct {
 	Name, Descr string
 	n           int
 	at          func(i int) *vroute.Program
+	variants    []int // with allVariants: the variant indices to run (nil = all)
 }
 
 func (s *space) Len() int                 { return s.n }
@@ -807,11 +838,20 @@ func (s *space) At(i int) *vroute.Program { return s.at(i) }
 func fromV(v *vroute.Space) *space { return &space{Name: v.Name, Descr: v.Descr, n: v.Len(), at: v.At} }
 
 func (c *checker) runSpace(s *space, opts vroute.PacketOpts, bothL4 bool, dedupe bool, allVariants bool) {
+	if only := os.Getenv("C02_ONLY"); only != "" && only != s.Name { // development aid
+		return
+	}
 	n := s.Len()
 	e0, p0 := c.evals.Load(), c.programs.Load()
 	total := n
+	vlist := s.variants
+	if vlist == nil {
+		for k := 0; k < nVariants; k++ {
+			vlist = append(vlist, k)
+		}
+	}
 	if allVariants {
-		total = n * nVariants
+		total = n * len(vlist)
 	}
 	stride := total/3 + 1
 	seed := uint64(0)
@@ -829,7 +869,7 @@ func (c *checker) runSpace(s *space, opts vroute.PacketOpts, bothL4 bool, dedupe
 		}
 		i, va := j, variant{}
 		if allVariants {
-			i, va = j/nVariants, variantAt(j%nVariants)
+			i, va = j/len(vlist), variantAt(vlist[j%len(vlist)])
 		} else {
 			va = variantAt(int(mix64(seed+uint64(j)) % nVariants))
 		}
@@ -942,7 +982,11 @@ func (c *checker) replay() {
 	before := c.mism.Load()
 	pk := []vroute.Packet{p}
 	c.run(k, cp, pk, "", false)
-	fmt.Printf("REPLAY routing:\n%svariant: %s (lpm alloc start %d)\npacket: %s wan-flavour-recorded=%v\nmismatches: %d\n", cp.prog.RoutingBody(), f.Detail.Variant, cp.alloc, p.Key(), f.Detail.Wan, c.mism.Load()-before)
+	body := cp.prog.RoutingBody()
+	if len(cp.prog.Rules) > 40 {
+		body = progSig(cp.prog) + "\n"
+	}
+	fmt.Printf("REPLAY routing:\n%svariant: %s (lpm alloc start %d)\npacket: %s (recorded flavour wan=%v; both flavours are re-run)\nmismatches: %d\n", body, f.Detail.Variant, cp.alloc, p.Key(), f.Detail.Wan, c.mism.Load()-before)
 	if c.mism.Load() != before {
 		fmt.Println("VIOLATION property=C02 replay=" + c.r.ReplayArg)
 		os.Exit(1)
@@ -954,7 +998,7 @@ func main() {
 	r := vlib.Start("C02", "exploration")
 	debug.SetGCPercent(600) // the builder allocates 1024-slot matcher tables per program; heap stays small
 	c := &checker{r: r, outcomes: map[string]int64{}, seen: map[uint64]struct{}{}, lone: map[string][2]int64{}, positives: map[string]int64{}}
-	c.evals, c.programs, c.dupProgs = r.Counter("evaluations"), r.Counter("programs"), r.Counter("programs_skipped_identical_after_mark_rewrite")
+	c.evals, c.programs, c.dupProgs = r.Counter("evaluations"), r.Counter("programs"), r.Counter("program_variants_skipped_as_identical_in_effect")
 	c.byRule, c.byFb = r.Counter("decided_by_rule_or_must_rules"), r.Counter("decided_by_plain_fallback")
 	c.mustDec, c.markDec = r.Counter("decisions_with_must"), r.Counter("decisions_with_mark")
 	c.dnsCP, c.dnsMust = r.Counter("dns_port53_handed_to_control_plane"), r.Counter("dns_port53_kept_by_must")
@@ -963,6 +1007,7 @@ func main() {
 	c.skippedUnspec = r.Counter("packets_skipped_domain_for_unspecified_destination")
 	c.kernNeg, c.refCmp = r.Counter("kernel_negative_results"), r.Counter("three_way_comparisons")
 	c.kcalls = r.Counter("kernel_route_calls")
+	c.distinct = r.Counter("distinct_nontrivial")
 
 	if err := vroute.SelfTest(); err != nil {
 		broken("%v", err)
@@ -1022,10 +1067,12 @@ func main() {
 	full := vroute.PacketOpts{MappedForms: true}
 	vb := variantBase()
 	c.runSpace(vb, vroute.PacketOpts{Compact: true, MappedForms: true}, true, true, true)
+	lb := longBase()
+	c.runSpace(lb, vroute.PacketOpts{Compact: true}, true, true, true)
 	t1 := fromV(vroute.Tier1())
 	c.runSpace(t1, full, true, true, false)
-	c.runSpace(fromV(vroute.Tier2(1, true, vroute.Tier2Outbounds)), full, true, false, r.Thorough())
-	rule := "programs: (a) " + vb.Descr + " (compact packet product); (b) tier 1 = " + t1.Descr + "; (c) tier 2 = 4 rotations of three independent atoms, rule = any non-empty conjunction of {A,!A,B,!B,C,!C} (26) x single/multi-valued realisation x outbound: all programs of exactly 1 rule (realisation per rule, 5 outbounds incl. must_rules)"
+	c.runSpace(fromV(vroute.Tier2(1, true, vroute.Tier2Outbounds)), full, true, true, r.Thorough())
+	rule := "programs: (a) " + vb.Descr + " (compact packet product); (a2) " + lb.Descr + " (compact packet product); (b) tier 1 = " + t1.Descr + "; (c) tier 2 = 4 rotations of three independent atoms, rule = any non-empty conjunction of {A,!A,B,!B,C,!C} (26) x single/multi-valued realisation x outbound: all programs of exactly 1 rule (realisation per rule, 5 outbounds incl. must_rules)"
 	if !r.Thorough() {
 		c.runSpace(fromV(vroute.Tier2(2, false, vroute.Tier2OutboundsSmall)), vroute.PacketOpts{Compact: true}, true, false, false)
 		rule += " and, quick tier, all programs of exactly 2 rules over the 3 outbounds {g1, must_g2, must_rules} with the realisation chosen per program (compact packet product: one inside + one outside neighbour per constant)"
@@ -1034,12 +1081,12 @@ func main() {
 		c.runSpace(fromV(vroute.Tier2(3, false, vroute.Tier2OutboundsSmall)), vroute.PacketOpts{Compact: true}, false, false, false)
 		rule += ", under all 60 variants; all programs of exactly 2 rules (realisation per rule, 5 outbounds, full packet product); all programs of exactly 3 rules over 3 outbounds {g1, must_g2, must_rules} with the realisation chosen per program (compact packet product; UDP only where the program mentions l4proto)"
 	}
-	rule += fmt.Sprintf(". variants (%d) = LPM ring state {first load, after one load of the same program, after as many loads (one 1-set configuration, then the same program repeatedly, each through the real reserveLpmRingSlots) as make this load's allocation end at or wrap past slot 1023} x ids(g1,g2) in %v x marks {as written; rules 0xffffffff + fallback 1; rules 1 + fallback 0xffffffff; rule j in {0,1,0xffffffff}[j%%3] + fallback 0x80000000}. (a) runs the complete product; in (b),(c) program i of a space runs under variant SplitMix64(space,i) mod %d (a fixed assignment, identical in every run; per-variant program counts are in programs_per_variant)", nVariants, idTables, nVariants)
-	rule += ". packets: vroute.PacketsFor = per program the full product of the boundary values of its own constants (prefix first/last/first-1/last+1 in 128-bit space, both families, IPv4 also as IPv4-mapped Go addresses in (a),(b) and tier-2 1-rule; port range ends and +-1 plus destination port 53; no/matching/sub-/glued/upper-case+trailing-dot/foreign domain; no/listed(16 bytes)/+-1 byte/foreign pname; zero/listed/listed^1/foreign MAC; dscp listed +-1), every packet as TCP and as UDP, in LAN flavour (is_wan=0, no process name: the packets without pname) and WAN flavour (is_wan=1, process name as in the packet incl. unknown, MAC as in the packet incl. zero). A case = (program, variant, packet, flavour) = one real route() call compared with ControlPlane.Route and with the vroute reference; distinct by construction (programs de-duplicated by text+ring+ids where mark rewriting can make two base programs coincide); distinct_nontrivial = cases whose decision is taken by a rule or passes a holding must_rules"
+	rule += fmt.Sprintf(". variants (%d) = LPM ring state {first load, after one load of the same program, after as many loads (one 1-set configuration, then the same program repeatedly, each through the real reserveLpmRingSlots) as make this load's allocation end at or wrap past slot 1023} x ids(g1,g2) in %v x marks {as written; rules 0xffffffff + fallback 1; rules 1 + fallback 0xffffffff; rule j in {0,1,0xffffffff}[j%%3] + fallback 0x80000000}. (a) runs the complete product; in (b),(c) program i of a space runs under variant SplitMix64(space,i) mod %d (a fixed assignment, identical in every run; per-variant program counts, by effective variant, are in programs_per_variant)", nVariants, idTables, nVariants)
+	rule += ". packets: vroute.PacketsFor = per program the full product of the boundary values of its own constants (prefix first/last/first-1/last+1 in 128-bit space, both families, IPv4 also as IPv4-mapped Go addresses in (a),(b) and tier-2 1-rule; port range ends and +-1 plus destination port 53; no/matching/sub-/glued/upper-case+trailing-dot/foreign domain; no/listed(16 bytes)/+-1 byte/foreign pname; zero/listed/listed^1/foreign MAC; dscp listed +-1), every packet as TCP and as UDP, in LAN flavour (is_wan=0, no process name: the packets without pname) and WAN flavour (is_wan=1, process name as in the packet incl. unknown, MAC as in the packet incl. zero). A case = (program, variant, packet, flavour): the real route() result compared with ControlPlane.Route and with the vroute reference (evaluations). An IPv4 packet given to Go as plain and as v4-mapped address is two cases but one kernel argument vector (kernel_route_calls counts distinct vectors per program and domain). Programs are pairwise distinct: spaces enumerated under several variants are de-duplicated by (text after mark rewriting, ring state if the program has LPM sets, id table if it names g1/g2). distinct_nontrivial = distinct kernel argument vectors (per program variant) whose decision is taken by a rule or passes a holding must_rules, i.e. is not the plain fallback"
 	r.Rule(rule)
 	c.stopKdrvs()
 
-	if c.mism.Load() == 0 {
+	if c.mism.Load() == 0 && os.Getenv("C02_ONLY") == "" {
 		for _, f := range []string{"domain", "dip", "ip", "sip", "dport", "port", "sport", "l4proto", "ipversion", "mac", "pname", "dscp"} {
 			for _, k := range []string{f, "!" + f} {
 				if c.lone[k][0] == 0 || c.lone[k][1] == 0 {
@@ -1074,7 +1121,6 @@ func main() {
 	r.Set("programs_per_variant_min", int(minPV))
 	r.Set("programs_with_lpm_allocation_reaching_slot_1023", int(c.ringWrap))
 	r.Set("lpm_alloc_start_max", int(c.ringMax))
-	r.Set("distinct_nontrivial", int(c.byRule.Load()))
 	r.Set("distinct_outcomes", len(c.outcomes))
 	r.Set("mismatches", int(c.mism.Load()))
 	r.Set("kdrv_processes", nk)
